@@ -12,6 +12,7 @@ use crate::common::Snapshot;
 use crate::distribution::{Distribution, DistributionBuilder};
 use crate::formatting::{
     key_to_parts, sanitize_metric_name, write_help_line, write_metric_line, write_type_line,
+    write_unit_suffix,
 };
 use crate::registry::GenerationalAtomicStorage;
 
@@ -117,12 +118,9 @@ impl Inner {
         let descriptions = self.descriptions.read().unwrap_or_else(PoisonError::into_inner);
 
         for (name, mut by_labels) in counters.drain() {
-            let unit = descriptions.get(name.as_str()).and_then(|(desc, unit)| {
-                write_help_line(&mut output, name.as_str(), desc);
-                *unit
-            });
+            let (unit, family_name) = self.write_family_help(&mut output, &descriptions, &name);
 
-            write_type_line(&mut output, name.as_str(), "counter");
+            write_type_line(&mut output, family_name.as_str(), "counter");
             for (labels, value) in by_labels.drain() {
                 write_metric_line::<&str, u64>(
                     &mut output,
@@ -131,19 +129,16 @@ impl Inner {
                     &labels,
                     None,
                     value,
-                    unit.filter(|_| self.enable_unit_suffix),
+                    unit,
                 );
             }
             output.push('\n');
         }
 
         for (name, mut by_labels) in gauges.drain() {
-            let unit = descriptions.get(name.as_str()).and_then(|(desc, unit)| {
-                write_help_line(&mut output, name.as_str(), desc);
-                *unit
-            });
+            let (unit, family_name) = self.write_family_help(&mut output, &descriptions, &name);
 
-            write_type_line(&mut output, name.as_str(), "gauge");
+            write_type_line(&mut output, family_name.as_str(), "gauge");
             for (labels, value) in by_labels.drain() {
                 write_metric_line::<&str, f64>(
                     &mut output,
@@ -152,20 +147,17 @@ impl Inner {
                     &labels,
                     None,
                     value,
-                    unit.filter(|_| self.enable_unit_suffix),
+                    unit,
                 );
             }
             output.push('\n');
         }
 
         for (name, mut by_labels) in distributions.drain() {
-            let unit = descriptions.get(name.as_str()).and_then(|(desc, unit)| {
-                write_help_line(&mut output, name.as_str(), desc);
-                *unit
-            });
+            let (unit, family_name) = self.write_family_help(&mut output, &descriptions, &name);
 
             let distribution_type = self.distribution_builder.get_distribution_type(name.as_str());
-            write_type_line(&mut output, name.as_str(), distribution_type);
+            write_type_line(&mut output, family_name.as_str(), distribution_type);
             for (labels, distribution) in by_labels.drain(..) {
                 let (sum, count) = match distribution {
                     Distribution::Summary(summary, quantiles, sum) => {
@@ -179,7 +171,7 @@ impl Inner {
                                 &labels,
                                 Some(("quantile", quantile.value())),
                                 value,
-                                unit.filter(|_| self.enable_unit_suffix),
+                                unit,
                             );
                         }
 
@@ -194,7 +186,7 @@ impl Inner {
                                 &labels,
                                 Some(("le", le)),
                                 count,
-                                unit.filter(|_| self.enable_unit_suffix),
+                                unit,
                             );
                         }
                         write_metric_line(
@@ -204,7 +196,7 @@ impl Inner {
                             &labels,
                             Some(("le", "+Inf")),
                             histogram.count(),
-                            unit.filter(|_| self.enable_unit_suffix),
+                            unit,
                         );
 
                         (histogram.sum(), histogram.count())
@@ -218,7 +210,7 @@ impl Inner {
                     &labels,
                     None,
                     sum,
-                    unit.filter(|_| self.enable_unit_suffix),
+                    unit,
                 );
                 write_metric_line::<&str, u64>(
                     &mut output,
@@ -227,7 +219,7 @@ impl Inner {
                     &labels,
                     None,
                     count,
-                    unit.filter(|_| self.enable_unit_suffix),
+                    unit,
                 );
             }
 
@@ -235,6 +227,30 @@ impl Inner {
         }
 
         output
+    }
+
+    /// Writes the `HELP` line of a metric family, if it has a description.
+    ///
+    /// Returns the unit that is appended to the metric name (when unit suffixes are enabled and
+    /// the family was described with a unit), and the family name carrying that suffix, which is
+    /// the name the `HELP` and `TYPE` lines must use.
+    fn write_family_help(
+        &self,
+        output: &mut String,
+        descriptions: &HashMap<String, (SharedString, Option<Unit>)>,
+        name: &str,
+    ) -> (Option<Unit>, String) {
+        let description = descriptions.get(name);
+        let unit =
+            description.and_then(|(_, unit)| *unit).filter(|_| self.enable_unit_suffix);
+
+        let mut family_name = name.to_string();
+        write_unit_suffix(&mut family_name, unit);
+        if let Some((desc, _)) = description {
+            write_help_line(output, family_name.as_str(), desc);
+        }
+
+        (unit, family_name)
     }
 
     fn run_upkeep(&self) {
